@@ -153,6 +153,28 @@ mut("C20 from_vec reverses", [(VEC, "            elements: elements\n           
 mut("C20 N: from_vec by indexed clone", [(VEC, "            elements: elements\n                .try_into()\n                .unwrap_or_else(|_| panic!(\"invalid dimension\")),", "            elements: { assert!(elements.len() == D, \"invalid dimension\"); array::from_fn(|i| elements[i].clone()) },")], C20=None)
 mut("C20 N: commuted products", [(VEC, "                acc + left.ref_mul(right)", "                right.ref_mul(left) + acc")], C20=None)
 
+# ---- C15-e series, decided at matrix level ----
+_PUSH_OLD = """            let last_power_of_n = powers_of_n
+                .last()
+                .unwrap_or_else(|| unreachable!("Never empty due to push before"));
+            let first_power_of_n = powers_of_n
+                .first()
+                .unwrap_or_else(|| unreachable!("Never empty due to push before"));
+            powers_of_n.push(last_power_of_n * first_power_of_n);"""
+_FOLD_OLD = """                    if i % 2 == 0 {
+                        &acc - mat
+                    } else {
+                        &acc + mat
+                    }"""
+mut("C15 series: power list squares the last element", [(MAT, _PUSH_OLD, _PUSH_OLD.replace("last_power_of_n * first_power_of_n", "last_power_of_n * last_power_of_n"))], C15="C15-e")
+mut("C15 series: loop starts at 2 (one power missing)", [(MAT, "for _ in 1..max_non_zero_power_of_n {", "for _ in 2..max_non_zero_power_of_n {")], C15="C15-e")
+mut("C15 series: all terms subtracted", [(MAT, _FOLD_OLD, _FOLD_OLD.replace("&acc + mat", "&acc - mat"))], C15="C15-e")
+mut("C15 series: parity test on i % 3", [(MAT, _FOLD_OLD, _FOLD_OLD.replace("i % 2 == 0", "i % 3 == 0"))], C15="C15-e")
+mut("C15 series: sum starts from the identity", [(MAT, ".fold(self.new_zeros(self.dim), |acc, (i, mat)| {", ".fold(self.new_identity(self.dim), |acc, (i, mat)| {")], C15="C15-e")
+mut("C15 series: powers of Q instead of N", [(MAT, "powers_of_n.push(n_matrix);", "powers_of_n.push(q.clone());")], C15="C15-e")
+mut("C15 N: series by index, odd-first parity", [(MAT, _PUSH_OLD, "            let next = &powers_of_n[powers_of_n.len() - 1] * &powers_of_n[0];\n            powers_of_n.push(next);"),
+                                                 (MAT, _FOLD_OLD, "                    if i % 2 != 0 {\n                        &acc + mat\n                    } else {\n                        &acc - mat\n                    }")], C15=None, C09=None, C10=None)
+mut("C15 N: first times last", [(MAT, "powers_of_n.push(last_power_of_n * first_power_of_n);", "powers_of_n.push(first_power_of_n * last_power_of_n);")], C15=None)
 # ---- C15-e / C15-f / C08-c ----
 mut("C15 Cholesky skips exact-zero entries (fill-in ignored)", [(MAT, "            for j in i + 1..self.dim {\n                let mut entry = self[(i, j)].clone();", "            for j in i + 1..self.dim {\n                if self[(i, j)] == const_builder.zero() {\n                    continue;\n                }\n                let mut entry = self[(i, j)].clone();")], C15="C15-", C08="C08-c")
 mut("C15 Cholesky inner sum over the wrong row", [(MAT, "entry -= &q[(i, k)].ref_mul(&q[(j, k)]);", "entry -= &q[(i, k)].ref_mul(&q[(i, k)]);")], C15="C15-e", C08="C08-c")
